@@ -77,7 +77,18 @@ func (s *JsonObjectBuilder) writeKey(key string) {
 	s.keyCount++
 }
 
-var escapeLookup = [93]string{'\b': "\\b", '\f': "\\f", '\n': "\\n", '\r': "\\r", '\t': "\\t", '"': `\"`, '\\': `\\`}
+// Every byte that RFC 8259 does not allow raw inside a string: control characters, quote and backslash
+var escapeLookup = [93]string{
+	0x00: `\u0000`, 0x01: `\u0001`, 0x02: `\u0002`, 0x03: `\u0003`,
+	0x04: `\u0004`, 0x05: `\u0005`, 0x06: `\u0006`, 0x07: `\u0007`,
+	'\b': "\\b", '\t': "\\t", '\n': "\\n", 0x0b: `\u000b`,
+	'\f': "\\f", '\r': "\\r", 0x0e: `\u000e`, 0x0f: `\u000f`,
+	0x10: `\u0010`, 0x11: `\u0011`, 0x12: `\u0012`, 0x13: `\u0013`,
+	0x14: `\u0014`, 0x15: `\u0015`, 0x16: `\u0016`, 0x17: `\u0017`,
+	0x18: `\u0018`, 0x19: `\u0019`, 0x1a: `\u001a`, 0x1b: `\u001b`,
+	0x1c: `\u001c`, 0x1d: `\u001d`, 0x1e: `\u001e`, 0x1f: `\u001f`,
+	'"': `\"`, '\\': `\\`,
+}
 
 func escape(s string) string {
 	var sb strings.Builder
